@@ -3,6 +3,7 @@ package ast
 import (
 	"bytes"
 	"fmt"
+	"sort"
 	"strings"
 
 	"github.com/textwire/textwire/v2/token"
@@ -20,13 +21,27 @@ func (ol *ObjectLiteral) Tok() *token.Token {
 	return &ol.Token
 }
 
+// SortedKeys returns the keys of the literal in alphabetical order. Iterating the
+// pairs in this order makes evaluation independent of the map iteration order
+func (ol *ObjectLiteral) SortedKeys() []string {
+	keys := make([]string, 0, len(ol.Pairs))
+
+	for key := range ol.Pairs {
+		keys = append(keys, key)
+	}
+
+	sort.Strings(keys)
+
+	return keys
+}
+
 func (ol *ObjectLiteral) String() string {
 	var out bytes.Buffer
 
 	pairs := []string{}
 
-	for key, value := range ol.Pairs {
-		k := fmt.Sprintf(`"%s": %s`, key, value.String())
+	for _, key := range ol.SortedKeys() {
+		k := fmt.Sprintf(`"%s": %s`, key, ol.Pairs[key].String())
 		pairs = append(pairs, k)
 	}
 
